@@ -88,7 +88,7 @@ theorem C09_decode_compressed_nested_json_to_flat_partial (a : Bool) (t : List D
   have htree : w.tree = .ok w.nodes := by
     unfold Wired.tree Wired.fuel
     rw [htab]
-    exact resolveList_plain o0 (2 * w.st.next + 2) ⟨by omega, fun _ => by omega⟩ w.nodes hp
+    exact resolveList_plain o0 (2 * w.st.next + 3) ⟨by omega, fun _ => by omega⟩ w.nodes hp
   have hwire : wire t o0 = .ok w.nodes := by unfold wire; rw [hw]; exact htree
   refine ⟨w.nodes, hwire, ?_, fun o ho hsame => ?_⟩
   · unfold wireAll
@@ -229,8 +229,8 @@ theorem C09_compressed_missing_count_breaks :
 theorem C09_links_of_sound {o : SubsetOut}
     (h : ∀ l ∈ o.links, ∃ e, o.descs[l.2]? = some (.plain e) ∧
       ∃ p id, l.2 < p ∧ p < l.1 ∧ C07.IsBitmapOp id ∧ o.descs[p]? = some (.oper id)) :
-    ∀ l ∈ o.links, ∃ p id, l.2 < p ∧ p < l.1 ∧ C07.IsBitmapOp id ∧ o.descs[p]? = some (.oper id) :=
-  fun l hl => (h l hl).elim fun _ x => x.2
+    ∀ l ∈ o.links, NotA o l.2 ∧ ∃ p id, l.2 < p ∧ p < l.1 ∧ C07.IsBitmapOp id ∧ o.descs[p]? = some (.oper id) :=
+  fun l hl => (h l hl).elim fun e x => ⟨⟨.plain e, x.1, rfl⟩, x.2⟩
 
 /-- the link to the coder for `wireLinksOK` templates, uncompressed -/
 theorem C09_decode_links_linked (t : List Desc) (hq : wireLinksOK t = true) (bits rest : Bits) (o : SubsetOut)
@@ -274,7 +274,7 @@ theorem C09_decode_links_owner_partial (t : List Desc) (hq : wireLinksOK t = tru
       (∀ q ∈ o.links, ∃ p ∈ w.st.tab, p.2.index? = some q.1) := by
   obtain ⟨w, hl⟩ := C09_decode_links_linked t hq bits rest o h
   refine ⟨w, hl.wired, fun p hp => ?_, hl.shown⟩
-  obtain ⟨k, i, own, e, h1, _, h3, _⟩ := hl.owners p hp
+  obtain ⟨k, i, own, e, h1, _, h3, _, _⟩ := hl.owners p hp
   exact ⟨k, i, own, e, h1, h3⟩
 
 /-- the connection to C07: on templates that are also `Spec.WFlinks` the owner in the tree is the owner `Spec.links`
@@ -412,7 +412,7 @@ theorem C09_decode_compressed_links_wire_partial (t : List Desc) (hq : wireLinks
   obtain ⟨hd, hlk, hlen⟩ := hall o ho
   have hn : w.st.next = o.vals.length := by rw [hl.next, hlen, hd, hl.len]
   refine ⟨hn, by rw [C09_wire_indices_consecutive t o0 w hl.wired, hn], fun p hp => ?_, by rw [hlk]; exact hl.shown⟩
-  obtain ⟨k, i, own, e, h1, _, h3, _⟩ := hl.owners p hp
+  obtain ⟨k, i, own, e, h1, _, h3, _, _⟩ := hl.owners p hp
   exact ⟨k, i, own, e, h1, by rw [hlk]; exact h3⟩
 
 /-- compressed data, EVERY subset: `wireAll` succeeds with the shared tree, and for every subset that carries the
@@ -527,7 +527,8 @@ example : ((decodeSubset exAcross (zeros' 60)).toOption.map fun r =>
     (r.1.links, (wireRaw exAcross r.1).toOption.map fun w => w.st.tab.length)) = some ([(5, 0)], some 0) ∧
     linkStatement exAcross (zeros' 60) = false := by decide +kernel
 
-/-- EXCLUDED, findings F11c / F11d / F11-C07-wire-*: any 204 (`204004 031021 012001 223000 101001 031031 223255 204000`) -/
+/-- EXCLUDED, findings F11c / F11d / F11-C07-wire-*: 204 IN FORCE over a bit-map construct
+    (`204004 031021 012001 223000 101001 031031 223255 204000`) -/
 def exF11c : List Desc :=
   [.op 204004, .elem (exE 31021 6), .elem (exE 12001 12), .op 223000, .fixedRep 101001 [.elem exB], .op 223255,
    .op 204000]
@@ -564,6 +565,27 @@ example : ((decodeSubset exW (zeros' 200)).toOption.map fun r => Spec.markersOk 
   decide +kernel
 example : linkStatement exW (zeros' 200) = true := by decide +kernel
 
+/-- round 4: an associated field in a stretch of its own next to bit-map constructs is inside the class now:
+    `204004 031021 012001 012002 204000 222000 236000 101002 031031 101002 033007 223000 237000 223255` -/
+def exA : List Desc :=
+  [.op 204004, .elem (exE 31021 6), .elem (exE 12001 12), .elem (exE 12002 12), .op 204000, .op 222000, .op 236000,
+   .fixedRep 101002 [.elem exB], .fixedRep 101002 [.elem exQ33], .op 223000, .op 237000, .op 223255]
+
+example : wireLinksOK exA = true ∧ quietList true exA = false ∧ quietList false exA = false := by decide +kernel
+example : linkStatement exA (zeros' 200) = true := by decide +kernel
+example : ((decodeSubset exA (zeros' 200)).toOption.map fun r =>
+    ((wire exA r.1 >>= renderNested r.1) >>= nestedJsonToFlat).toOption == some r.1.vals) = some true := by
+  decide +kernel
+
+/-- 206YYY in front of a local descriptor while an associated field is in force is inside (one S item, one node);
+    in front of a KNOWN element it is finding F11b and stays outside -/
+def exA206 : List Desc := [.op 204004, .elem (exE 31021 6), .op 206008, .undefElem 63250, .elem (exE 12001 12), .op 204000]
+def exF11b : List Desc := [.op 204004, .elem (exE 31021 6), .op 206008, .elem (exE 12001 12), .op 204000]
+
+example : wireLinksOK exA206 = true ∧ linkStatement exA206 (zeros' 100) = true := by decide +kernel
+example : wireLinksOK exF11b = false ∧ (decodeSubset exF11b (zeros' 100)).toOption.isSome = true ∧
+    linkStatement exF11b (zeros' 100) = false := by decide +kernel
+
 /-! ## Stage 3: the property statement over the union of the proved classes -/
 
 /-- the templates on which the link coder -> hierarchical view is proved -/
@@ -582,7 +604,9 @@ def C09.viewClass (t : List Desc) : Bool := quietList false t || quietList true 
     201 202 203 205 207 208 221) ∪ `quietList true` (the same without 203, with 204YYY + 031021 / 204000 over plain
     elements) ∪ `wireLinksOK` (elements, sequences, replications, 201 202 205 206 207 208, the bit-map operators
     222000 223000 224000 225000 232000 235000 236000 237000 237255, bit-map definitions by 031031 runs under fixed or
-    delayed replication, marker operators 22X255 / 232255, class 33 values after 222000).
+    delayed replication, marker operators 22X255 / 232255, class 33 values after 222000; round 4: 204YYY + 031021 /
+    204000 over plain elements and 206YYY + local descriptor, in stretches in which no bit-map construct, 203 or
+    class 33 element occurs while the field is in force).
     OUTSIDE, and why:
     * FALSE there (open findings, proved negations `exO2` in Props/C09.lean, `exF15`, `exAcross`, `exF11c`,
       `exNoMeaning`, `exSkipRep` above): 204 in force over a 203 definition, a 206 skip, a marker operator, 008023 /
@@ -591,10 +615,10 @@ def C09.viewClass (t : List Desc) : Bool := quietList false t || quietList true 
       (F-C07-wire-qa-across-operator); a stats marker without the 008023 / 008024 of its own operator (AttributeError,
       or an attribute cycle when an old meaning node is selected by the new bit-map); 206YYY in front of a
       replication / sequence / operator; 222YYY with YYY ≠ 0;
-    * TRUE but not proved: 221 or a 203 definition in a template that also has bit-map operators or 206; 204 in a
-      stretch of a template that elsewhere has bit-map operators (the two simulations are not merged: `quietList`
-      tracks the 204 stack and the 221 count, `wireLinksOK` the QA flags and links); a replication body that is not
-      a fixed point of the abstract interpretation after one round although every run of it is harmless.
+    * TRUE but not proved: 221 or a 203 definition in a template that also has bit-map operators or 206 (`quietList`
+      tracks the 221 count and the 203 mode, `wireLinksOK` the QA flags, links and - since round 4 - the 204 stack);
+      204 left open across a replication body (unbalanced use: `quietList true` only); a replication body that is
+      not a fixed point of the abstract interpretation after one round although every run of it is harmless.
     Compressed data: `C09_decode_compressed_nested_json_to_flat_partial` (quietList) and
     `C09_decode_compressed_links_nested_json_to_flat_partial` (wireLinksOK), every subset, under `Spec.sameCountsList`. -/
 theorem C09_decode_hierarchical_view (t : List Desc) (hq : C09.viewClass t = true) (bits rest : Bits) (o : SubsetOut)
@@ -619,7 +643,7 @@ theorem C09_decode_hierarchical_view (t : List Desc) (hq : C09.viewClass t = tru
   · obtain ⟨w, hl⟩ := C09_decode_links_linked t hq bits rest o h
     refine ⟨w, hl.wired, hl.next, C09_wire_consumes_each_index_once_partial t o w hl.wired hl.next, fun p hp => ?_,
       C09_decode_links_chain_partial t hq bits rest o h⟩
-    obtain ⟨k, i, own, e, h1, _, h3, _⟩ := hl.owners p hp
+    obtain ⟨k, i, own, e, h1, _, h3, _, _⟩ := hl.owners p hp
     exact ⟨k, i, own, e, h1, h3⟩
 
 /-- non-vacuity: one template of each of the three classes is in `viewClass` and decodes -/
